@@ -129,6 +129,15 @@ func runC11(t *mon.T, raw json.RawMessage) {
 			}
 			t.Cover("multisets-with-shared-digest-prefixes")
 		}
+		if i == 0 && r.Intn(8) == 0 {
+			// more than 64 distinct digest widths in one table (identity digests can have any length;
+			// the digest-only codec pools the widths of all hash codes)
+			w0 := r.Intn(20)
+			for w := w0; w < w0+66+r.Intn(30); w++ {
+				recs = append(recs, c11Rec{refcar.MakeCidV1(0x55, 0x00, gen.Bytes(r, w)), uint64(r.Int63())})
+			}
+			t.Cover("multisets-with-more-than-64-widths")
+		}
 		if r.Intn(5) == 0 { // same digest under another hash code
 			sc, _, _ := refcar.SplitCid(c)
 			recs = append(recs, c11Rec{refcar.MakeCidV1(0x55, sc.MhCode^0x1, sc.Digest), uint64(r.Int63())})
@@ -289,12 +298,43 @@ func c11Session(t *mon.T, d c11Desc) {
 		t.Violatef("session/open/error", "OpenReadWrite: %v", err)
 		return
 	}
+	// the session may be interrupted (Discard or Finalize, then reopened with the same roots and
+	// options) up to two times: the index flattened at the end is then partly rebuilt from the file
+	cuts := map[int]string{}
+	if d.Big == 0 && len(content.Blocks) >= 2 {
+		for k := r.Intn(3); k > 0; k-- {
+			cuts[1+r.Intn(len(content.Blocks)-1)] = []string{"discard", "finalize"}[r.Intn(2)]
+		}
+	}
 	var batch []blocks.Block
-	for _, b := range content.Blocks {
+	flush := func() bool {
+		if err := bs.PutMany(bg, batch); err != nil {
+			t.Violatef("session/put/error", "PutMany: %v", err)
+			return false
+		}
+		batch = nil
+		return true
+	}
+	for i, b := range content.Blocks {
+		if how, ok := cuts[i]; ok {
+			if !flush() {
+				return
+			}
+			if how == "discard" {
+				bs.Discard()
+			} else if err := bs.Finalize(); err != nil {
+				t.Violatef("session/finalize/error", "Finalize (interruption): %v", err)
+				return
+			}
+			if bs, err = blockstore.OpenReadWrite(p, lab.ToCids(content.Roots, content.NilRoots), cfg.Opts()...); err != nil {
+				t.Violatef("session/reopen/error", "OpenReadWrite on the session's own file after %s: %v", how, err)
+				return
+			}
+			t.Cover("sessions-resumed-after-" + how)
+		}
 		batch = append(batch, lab.ToBlock(b))
 	}
-	if err := bs.PutMany(bg, batch); err != nil {
-		t.Violatef("session/put/error", "PutMany: %v", err)
+	if !flush() {
 		return
 	}
 	if err := bs.Finalize(); err != nil {
@@ -364,10 +404,10 @@ func init() {
 	Register(&mon.Check{
 		ID:          "C11",
 		Level:       "exploration",
-		Rule:        "cases = (a) seeded record multisets (8 hash codes, digest widths 0..80, repeated digests with distinct offsets and under other hash codes, digests differing in a single late byte (shared prefixes), offsets up to 2^63-1) loaded in 8 (quick) / 24 (thorough) permutations into both on-disk codecs: reported byte count, strict reference parse, bucket/entry order, multiset equality, permutation invariance, ReadFrom round trip (seekable and plain reader) with identical GetAll/ForEach and byte-identical re-marshal; (b) writing sessions (1-12 blocks, plus a few with 17k-75k tiny blocks so that the in-memory index is large when flattened) whose embedded (flattened) index is compared with GenerateIndex over the finished payload",
+		Rule:        "cases = (a) seeded record multisets (8 hash codes, digest widths 0..80, a few with more than 64 distinct widths in one table, repeated digests with distinct offsets and under other hash codes, digests differing in a single late byte (shared prefixes), offsets up to 2^63-1) loaded in 8 (quick) / 24 (thorough) permutations into both on-disk codecs: reported byte count, strict reference parse, bucket/entry order, multiset equality, permutation invariance, ReadFrom round trip (seekable and plain reader) with identical GetAll/ForEach and byte-identical re-marshal; (b) writing sessions (1-12 blocks, interrupted by Discard/Finalize and resumed up to twice, plus a few with 17k-75k tiny blocks so that the in-memory index is large when flattened) whose embedded (flattened) index is compared with GenerateIndex over the finished payload",
 		Assumptions: []string{"reference index parser/builder (refcar)", "order among entries sharing one digest is left open by the format and is canonicalised before comparison"},
 		Gen:         genC11,
 		Run:         runC11,
-		MinCover:    map[string]int{"multisets-with-repeated-digest": 20, "multisets-with-shared-digest-prefixes": 50, "sessions": 50, "sessions-without-repeated-digest": 10, "sessions-with-repeated-digest": 5, "big-sessions": 3},
+		MinCover:    map[string]int{"multisets-with-repeated-digest": 20, "multisets-with-shared-digest-prefixes": 50, "sessions": 50, "sessions-without-repeated-digest": 10, "sessions-with-repeated-digest": 5, "big-sessions": 3, "multisets-with-more-than-64-widths": 20, "sessions-resumed-after-discard": 20, "sessions-resumed-after-finalize": 20},
 	})
 }
